@@ -141,6 +141,7 @@ func (e *Engine) verifyFunc(key string) (res *FuncResult) {
 	// postconditions at every return
 	for k, rs := range f.returns {
 		rsc := &SpecScope{names: map[string]*Value{}, parent: sc, old: entry, pkg: fi.Pkg.Types}
+		ghostLocals := map[string]*Value{}
 		// locals that are live at the return may be named in postconditions (existential witnesses)
 		rsc.locals = func(name string, st *State) *Value {
 			var best types.Object
@@ -155,6 +156,20 @@ func (e *Engine) verifyFunc(key string) (res *FuncResult) {
 				}
 			}
 			if best == nil {
+				// a local that is not live at this return: any value (the clause must hold for all)
+				if v, ok := ghostLocals[name]; ok {
+					return v
+				}
+				for id, o := range fi.Pkg.TypesInfo.Defs {
+					if o == nil || id.Name != name || id.Pos() < fi.Decl.Body.Pos() || id.Pos() > fi.Decl.Body.End() {
+						continue
+					}
+					if vo, ok := o.(*types.Var); ok {
+						v := x.symbolic(st, vo.Type(), "unbound."+name)
+						ghostLocals[name] = v
+						return v
+					}
+				}
 				return nil
 			}
 			return x.readVar(best, st)
@@ -174,6 +189,10 @@ func (e *Engine) verifyFunc(key string) (res *FuncResult) {
 			suffix = fmt.Sprintf("@ret%d", k+1)
 		}
 		for i, en := range c.Ensures {
+			if en.Assumed {
+				x.note("assumed (unchecked) postcondition of " + fi.Key + ": " + en.Src)
+				continue
+			}
 			t := x.evalEnsuresAt(en, rsc, rs)
 			x.oblige(rs, "ensures", clauseName(en, i)+suffix, t, nil)
 		}
